@@ -5,6 +5,8 @@ CONSTANTS
   Cost <- CostDef
   Variant = "perthread"
   UseCache = FALSE
+  Nest = FALSE
+  StoreFirst = FALSE
   MaxHist = FALSE
 INVARIANT RightAnswer
 CHECK_DEADLOCK FALSE
